@@ -439,17 +439,27 @@ func (eng *Engine) verifyFunc(fn *ssa.Function, fc *FuncContract) (res FuncResul
 			}
 			return false
 		}
-		if tryHint(eng.hints.get(fullName), "") {
+		exact, known := eng.hints.lookup(fullName)
+		if tryHint(exact, "") {
 			return
 		}
-		if !eng.updateHints && tryHint(eng.hints.getUnion(fn.String()), ".fn") {
+		// the per-function union is for obligations the hint file does not know (new or renamed by an edit), not for
+		// those recorded as having no usable hint
+		if !known && !eng.updateHints && tryHint(eng.hints.getUnion(fn.String()), ".fn") {
 			return
 		}
 		defer func() {
 			if eng.updateHints && eng.hints != nil && o.Kind != "cover" && res.Obls[i].Status == "unsat" {
 				if hashes, ok := extractCore(text, 120); ok {
-					eng.hints.put(fullName, hashes)
+					// keep the hint only if it is actually useful: the hinted query must be refuted quickly
+					ht, _, _ := hintedText(text, hashSet(hashes))
+					vr := solveWith(eng.workDir, name+".hint.v", ht, 10, []string{"z3-5.1.0", "z3-4.8.12", "cvc5-1.0"})
+					if vr.status == "unsat" {
+						eng.hints.put(fullName, hashes)
+						return
+					}
 				}
+				eng.hints.put(fullName, []string{"-"}) // no usable hint: go straight to the full query next time
 			}
 		}()
 		if textsNoLemma[i] != "" && o.Kind != "cover" {
